@@ -118,7 +118,10 @@ Proof.
 Qed.
 
 Lemma ends_with_nl_snoc u d : ends_with_nl (u ++ [d]) = (d =? NL).
-Proof. unfold ends_with_nl. rewrite rev_app_distr. reflexivity. Qed.
+Proof.
+  induction u as [|c r IH]; [reflexivity|]. cbn [app ends_with_nl].
+  destruct (r ++ [d]) eqn:E; [destruct r; discriminate|]. exact IH.
+Qed.
 
 Lemma not_space_ne c : py_isspace c = false -> (c =? SP) = false /\ (c =? NL) = false.
 Proof.
